@@ -505,6 +505,16 @@ func checkC20(tier string, seed int64) int {
 		maxP, maxC = 4, 3
 	}
 	prods, cons := scripts(maxP, maxC)
+	// thresholds above one (the Low-Latency downloader throttles at ten queued parts): a waiter must
+	// proceed as soon as the backlog is at its own threshold, not only when the queue is nearly empty
+	mk := func(pushes, n int) []qop {
+		var p []qop
+		for i := 1; i <= pushes; i++ {
+			p = append(p, qop{Kind: "push", ID: i})
+		}
+		return append(p, qop{Kind: "wait", N: n})
+	}
+	prods = append(prods, mk(3, 2), mk(4, 2), mk(4, 3))
 	execs := 0
 	sigs := map[string]bool{}
 	windows := 0
